@@ -1361,3 +1361,39 @@ Proof.
   - reflexivity.
   - unfold isManifest_cases. repeat constructor; simpl; intuition discriminate.
 Qed.
+
+(* OCI: content never pushed successfully is absent; fetching or tagging it is not-found *)
+Lemma oci_never_pushed_absent h g :
+  (forall d c, In (Push d c) h -> d_dig d <> g) ->
+  let s := fst (run oci_step oci_init h) in
+  get N.eqb g (o_blobs s) = None /\
+  forall d r, d_dig d = g -> snd (oci_step s (Fetch d)) = OErr ENotFound /\
+                             (r <> REmpty -> snd (oci_step s (Tag d r)) = OErr ENotFound) /\
+                             snd (oci_step s (Exists d)) = OBool false /\
+                             snd (oci_step s (Delete d)) = OErr ENotFound.
+Proof.
+  intros Hno s.
+  assert (Habs : get N.eqb g (o_blobs s) = None).
+  { unfold s. clear s. assert (G : get N.eqb g (o_blobs oci_init) = None) by reflexivity.
+    revert G Hno. generalize oci_init. induction h as [|o h IH]; intros s0 G Hno; [exact G|].
+    rewrite run_cons. cbn [fst]. apply IH; [|intros; apply (Hno d c); now right].
+    destruct o; simpl; auto.
+    - destruct (get N.eqb (d_dig d) (o_blobs s0)); auto. destruct (verify d c); auto. simpl.
+      rewrite (get_put_neq N.eqb Neqb_spec); auto. intro; subst. apply (Hno d c); [now left | reflexivity].
+    - destruct (get N.eqb (d_dig d) (o_blobs s0)); auto.
+    - destruct r; auto; destruct (is_some _); auto.
+    - destruct r as [m|g0|]; auto.
+      + destruct (get ref_eqb (RName m) (r_index (o_res s0))); auto.
+      + destruct (get ref_eqb (RDig g0) (r_index (o_res s0))); auto;
+          try (destruct (get N.eqb g0 (o_blobs s0)); auto).
+    - destruct r as [m|g0|]; auto.
+      + destruct (get ref_eqb (RName m) (r_index (o_res s0))) as [d1|]; auto;
+          try (destruct (ref_eqb _ (RDig (d_dig d1))); auto).
+      + destruct (get ref_eqb (RDig g0) (r_index (o_res s0))) as [d1|]; auto;
+          try (destruct (ref_eqb _ (RDig (d_dig d1))); auto).
+    - destruct (get N.eqb (d_dig d) (o_blobs s0)) eqn:E; simpl; auto.
+      destruct (N.eq_dec g (d_dig d)) as [->|Hne]; [congruence|].
+      now rewrite (get_del_neq N.eqb Neqb_spec). }
+  split; auto. intros d r <-. simpl. rewrite Habs. simpl. repeat split; auto.
+  intro Hr. destruct r; auto. congruence.
+Qed.
